@@ -46,6 +46,7 @@ structure Acc where
   fired : Bool := false
   slotAtTick : Bool := false
   closedSeen : Bool := false
+  closedAtCall : Bool := false     -- a closer had already won closeBy when the current call was issued
   timedOutBefore : Bool := false   -- some earlier Flush/Write on this connection returned ErrWriteTimeout
   callsAfterTimeout : Nat := 0     -- Flush/Write calls issued after an ErrWriteTimeout (known findings D9/D9b start here)
   sub : Nat := 0
@@ -68,7 +69,7 @@ def badRun (a : Acc) (msg : String) : Acc :=
 
 def onEv (a : Acc) : Ev → Acc
   | .call idx op n mode =>
-      { a with inCall := true, idx := idx, op := op, n := n, mode := mode, fired := false, slotAtTick := false,
+      { a with inCall := true, idx := idx, op := op, n := n, mode := mode, fired := false, slotAtTick := false, closedAtCall := a.closedSeen,
                callsAfterTimeout := if a.timedOutBefore && op != "M" then a.callsAfterTimeout + 1 else a.callsAfterTimeout }
   | .submitted d => { a with sub := a.sub + d }
   | .accepted k => { a with acc := a.acc + k }
@@ -105,8 +106,11 @@ def onEv (a : Acc) : Ev → Acc
         else if res == "closed" then
           if !a.closedSeen then a := bad a "ErrConnClosed before any close"
         else if res == "concurrent" then
-          -- the only way for the single scripted flusher: the finalizer stopped `flushing` after its IsActive check
+          -- the only way for the single scripted flusher: the finalizer stopped `flushing` after its IsActive check,
+          -- i.e. the close began while the call was under way.  A call ISSUED on a connection that is already closed
+          -- "fails with ErrConnClosed": no other Flush is in progress, so ErrConcurrentAccess is the wrong answer.
           if !a.closedSeen then a := bad a "ErrConcurrentAccess without a concurrent flusher or a close"
+          else if a.closedAtCall then a := bad a "issued on an already closed connection, returned ErrConcurrentAccess instead of ErrConnClosed (no other Flush was in progress)"
         else
           a := bad a s!"unexpected result {res}"
       if tick != 0 then a := bad a "the timer channel is not empty after the call"
